@@ -379,9 +379,16 @@ fn plant_program_violation(rng: &mut Rng, p: &mut asp::Program, private: &[(&str
             p.rules.push(asp::Rule { head: asp::Head::Choice(asp::Atom { predicate_symbol: q.into(), terms: args(n) }), body: asp::Body { formulas: vec![] } });
         }
         _ => {
-            // an input predicate heads a rule
-            let (i, n) = *rng.pick(inputs);
-            p.rules.push(basic(i, args(n), vec![]));
+            // an input predicate heads a rule; 35 %: every input predicate does, in reverse order of declaration
+            // (the payload of InputPredicateInRuleHead lists them in the order of the input declarations)
+            if inputs.len() >= 2 && rng.chance(35) {
+                for (i, n) in inputs.iter().rev() {
+                    p.rules.push(basic(i, args(*n), vec![]));
+                }
+            } else {
+                let (i, n) = *rng.pick(inputs);
+                p.rules.push(basic(i, args(n), vec![]));
+            }
         }
     }
 }
@@ -501,8 +508,23 @@ fn gen_external_task(rng: &mut Rng) -> ExternalEquivalenceTask {
     }
     if rng.chance(5) {
         violations += 1;
-        let (p, n) = *rng.pick(inputs);
-        entries.push(fol::UserGuideEntry::OutputPredicate(pr(p, n)));
+        // one or (40 %, when there are two) several input predicates declared output as well, in the order of
+        // the inputs or reversed: the payload of InputOutputPredicatesOverlap is the intersection in the
+        // order of the INPUT declarations
+        if inputs.len() >= 2 && rng.chance(40) {
+            let mut both: Vec<(&str, usize)> = inputs.to_vec();
+            if rng.chance(50) {
+                both.reverse();
+            }
+            for (p, n) in both {
+                if rng.chance(80) {
+                    entries.push(fol::UserGuideEntry::OutputPredicate(pr(p, n)));
+                }
+            }
+        } else {
+            let (p, n) = *rng.pick(inputs);
+            entries.push(fol::UserGuideEntry::OutputPredicate(pr(p, n)));
+        }
     }
     if rng.chance(10) {
         // duplicate declarations are harmless
